@@ -31,6 +31,6 @@ TEnd ==
   /\ PrevOK /\ ObsOK(Tr[i])
   /\ PrintT(<<"ACC", Tr[i].scn>>)
   /\ i' = Len(Tr) + 2 /\ ModelUnch /\ UNCHANGED <<hist, nenv, fin, hold>>
-TNext == (hold = 0 /\ Internal /\ UNCHANGED i) \/ TEvent \/ TEnd
+TNext == (Internal /\ UNCHANGED i) \/ TEvent \/ TEnd
 TSpec == TInit /\ [][TNext]_tvars
 ====
